@@ -38,10 +38,19 @@ Lemma grouping_example :
 Proof. vm_compute. split; reflexivity. Qed.
 
 (** dx/dt = 1001 with x uninitialised: under-constrained ("used in an ODE, but not initialised").  Marking x as external
-    does NOT rescue it: the third pass only looks at external variables of type UNKNOWN, x is SHOULD_BE_STATE. *)
+    did NOT rescue it before the repair ([analyse_xg true false false]): the third pass only looks at external variables
+    of type UNKNOWN, x is SHOULD_BE_STATE. *)
 Definition sysE : system := [ mkComp [mkVar 0 0 INone; mkVar 1 1 INone] [mkEqn 1001 (EDiff 0 1) ECn] ].
 
 Lemma uninitialised_state_not_rescued :
+  option_map (fun r => (r_type r, r_issues r)) (result_of (analyse_xg true false false sysE [])) = Some (MUnderconstrained, [mkIssue RStateNotInit (0, 1)]) /\
+  option_map (fun r => (r_type r, r_issues r)) (result_of (analyse_xg true false false sysE mark_x)) = Some (MUnderconstrained, [mkIssue RStateNotInit (0, 1)]).
+Proof. vm_compute. split; reflexivity. Qed.
+
+(** ... and with the repair (fixes/C20-uninitialised-state-rescue.diff) x becomes the external variable of a valid model,
+    its ODE the placeholder equation *)
+Lemma uninitialised_state_rescued :
   option_map (fun r => (r_type r, r_issues r)) (result_of (analyse_x true sysE [])) = Some (MUnderconstrained, [mkIssue RStateNotInit (0, 1)]) /\
-  option_map (fun r => (r_type r, r_issues r)) (result_of (analyse_x true sysE mark_x)) = Some (MUnderconstrained, [mkIssue RStateNotInit (0, 1)]).
+  option_map (fun r => (r_type r, map (fun a => (av_var a, av_type a, av_eqs a)) (r_vars r), map (fun e => (ae_id e, ae_type e)) (r_eqs r)))
+             (result_of (analyse_x true sysE mark_x)) = Some (MOde, [((0, 1), AExternal, [0])], [(Some 1001, QExternal)]).
 Proof. vm_compute. split; reflexivity. Qed.
